@@ -123,6 +123,47 @@ func ruleC13Orphans(p *Prog, r *Res) {
 						continue
 					}
 					covered = true
+					// a clean-up over X[lo:] inside `for k, x := range X` has to start at the element being handled: lo is
+					// absent, 0 or k — or the block removes x's file itself
+					if se, isSl := ast.Unparen(rs.X).(*ast.SliceExpr); isSl && se.Low != nil {
+						if k0, isC := constInt(info, se.Low); !(isC && k0 == 0) {
+							var encKey, encVal types.Object
+							inspectParents(f.Body(), func(y ast.Node, parents []ast.Node) bool {
+								if y == ast.Node(blk) {
+									for _, par := range parents {
+										if ers, ok := par.(*ast.RangeStmt); ok && sameObj(info, ers.X, X) {
+											encKey, encVal = identObj(info, ers.Key), identObj(info, ers.Value)
+										}
+									}
+								}
+								return true
+							})
+							if lo := identObj(info, se.Low); lo == nil || lo != encKey {
+								removesCurrent := false
+								for _, st2 := range blk.List {
+									ast.Inspect(st2, func(y ast.Node) bool {
+										if _, isRange := y.(*ast.RangeStmt); isRange {
+											return false
+										}
+										if c, ok := y.(*ast.CallExpr); ok {
+											if fn := p.Callee(f.Pkg, c); fn != nil && fn.FullName() == "os.Remove" && len(c.Args) == 1 {
+												ast.Inspect(c.Args[0], func(z ast.Node) bool {
+													if id, ok := z.(*ast.Ident); ok && encVal != nil && info.Uses[id] == encVal {
+														removesCurrent = true
+													}
+													return true
+												})
+											}
+										}
+										return true
+									})
+								}
+								if !removesCurrent {
+									missing = "the clean-up loop at line " + fmt.Sprint(lineOf(p.Fset, rs)) + " starts at " + types.ExprString(se.Low) + ", behind the element whose handling failed, and nothing else removes that element's file"
+								}
+							}
+						}
+					}
 					elem := identObj(info, rs.Value)
 					removes := false
 					ast.Inspect(rs.Body, func(y ast.Node) bool {
@@ -138,7 +179,7 @@ func ruleC13Orphans(p *Prog, r *Res) {
 						}
 						return true
 					})
-					if !removes {
+					if !removes && missing == "" {
 						missing = "the loop over " + types.ExprString(rs.X) + " at line " + fmt.Sprint(lineOf(p.Fset, rs)) + " does not os.Remove the element's file"
 					}
 				}
